@@ -1,7 +1,7 @@
 (* C04 — Compare is a total preorder consistent with EqualFold.
    Statements only; proofs are in Refine_Compare.v / SpecFacts.v.
    fold121 = the CaseFold lookup over the tables regenerated from /repo. *)
-From Strcase Require Import Base Utf8 Spec SpecFacts Impl Refine_Compare Fold FoldFacts FoldTables FoldFacts121.
+From Strcase Require Import Base Utf8 Spec SpecFacts Impl Refine_Compare Fold FoldFacts FoldTables FoldFacts121a.
 
 (* the model of the code (both packages) computes the lexicographic order of
    the folded code-point sequences, on all byte strings *)
